@@ -56,6 +56,14 @@ MAP = [
  ("ANSI writer drops the bold flag", "C04", "bold cell with fg 0..7 saved with the dark colour"),
  ("ANSI writer records 'concealed' as 'blink'", "C04", "blinking cell after a concealed cell saved without SGR 5; ice-mode bright background lost"),
  ("ANSI writer skips blanks on an xterm-256 background", "C04", "compress + cursor-forward + extended colours: blanks on a 48;5;n background replaced by cursor forward"),
+ ("iCE Draw loader allocates rows of up to 65536 cells", "C03", "IDF header with x2=0xFFFF: 65536-cell rows allocated per line, allocation refusal on a 20-byte file class"),
+ ("undo of an area operation drops cells outside its rectangle", "C08", "set_layer_size(0,(6,4)); flip_x(); undo; undo - cells outside 6x4 gone; delete_column then center: undo panics; toggle visibility, select, scroll: undo leaves the hidden layer changed"),
+ ("whole-layer scroll rotates the allocated rows", "C08", "resize_buffer(true,(17,12)); justify_right(); scroll_area_up(); undo all; redo all - different rows than the first execution"),
+ ("scrolling a one-row selection up or down", "C08", "set_selection((2,4) 6x1); scroll_area_up(); undo - row 4 lost its cells right of the selection"),
+ ("center writes left of a selection", "C08", "set_selection((1,1) 5x3); center(); undo - column 0 of rows 1..3 overwritten"),
+ ("swapping a cell with a position outside the layer", "C08", "swap_char((0,0),(12,2)) on a 12x8 layer; undo - cell (0,0) stays erased"),
+ ("make-transparent and stamp-down record an unclamped", "C08", "clear_layer(1) on a 2-layer document; make_layer_transparent(); undo fails with 'Layer 2 is invalid'"),
+ ("undo of row and column insert/delete panics", "C08", "merge_layer_down(2); justify_line_left(); delete_column(); set_palette_mode(RGB); undo/redo walk panics in DeleteColumn::undo (index out of bounds)"),
 ]
 
 def main():
